@@ -16,7 +16,7 @@ use constriction::stream::chain::{ChainCoder, DecoderFrontendError as ChainDecEr
 use constriction::stream::model::*;
 use constriction::stream::queue::{DecoderFrontendError as RangeDecErr, RangeDecoder, RangeEncoder};
 use constriction::stream::stack::AnsCoder;
-use constriction::stream::{Decode, Encode};
+use constriction::stream::Decode;
 use constriction::{CoderError, UnwrapInfallible};
 use num_traits::AsPrimitive;
 
@@ -236,6 +236,85 @@ where
         }
     }
     run.count("chain_out_of_data", out_of_data);
+    run.nontrivial();
+    run.describe(|| desc.clone());
+}
+
+/// Chain coder over arbitrary words with the precision changed between symbols (up, then back
+/// down): same obligations as above; `change_precision` may refuse only with its own documented
+/// error value.
+fn chain_prec<W, S, Pr1, const P1: usize, Pr2, const P2: usize>(run: &mut Run, rng: &mut Rng)
+where
+    W: Num + Into<S> + AsPrimitive<Pr1> + AsPrimitive<Pr2>,
+    S: Num + AsPrimitive<W>,
+    Pr1: Num + Into<W>,
+    Pr2: Num + Into<W>,
+{
+    run.h(5 << 60 | W::NBITS as u64 * 1000 + S::NBITS as u64 ^ (P1 as u64) << 20 ^ (P2 as u64) << 28);
+    run.count("chain_precision_change_cases", 1);
+    let zoo1: Vec<TableModel<Pr1, P1>> = (0..rng.usize_in(1, 3)).map(|_| TableModel::new(gen_cdf(rng, P1 as u32, 40))).collect();
+    let zoo2: Vec<TableModel<Pr2, P2>> = (0..rng.usize_in(1, 3)).map(|_| TableModel::new(gen_cdf(rng, P2 as u32, 40))).collect();
+    let (data, kind) = gen_garbage::<W>(rng, None, 24);
+    for x in &data {
+        run.h128(x.as_u());
+    }
+    let desc = format!("CHAIN W={} S={} P={}->{}->{} [{kind}] {}", W::NAME, S::NAME, P1, P2, P1, words_desc(&data));
+    run.note(|| desc.clone());
+    let built = if rng.bool() { ChainCoder::<W, S, Vec<W>, Vec<W>, P1>::from_compressed(data.clone()) } else { ChainCoder::<W, S, Vec<W>, Vec<W>, P1>::from_binary(data.clone()) };
+    let cc = match built {
+        Ok(c) => c,
+        Err(CoderError::Frontend(_)) => {
+            run.count("chain_construction_refusals", 1);
+            return;
+        }
+        Err(CoderError::Backend(e)) => match e {},
+    };
+    macro_rules! phase {
+        ($cc:ident, $zoo:ident, $k:expr) => {
+            for i in 0..$k {
+                let m = &$zoo[rng.below($zoo.len() as u64) as usize];
+                match $cc.decode_symbol(m) {
+                    Ok(g) => {
+                        if g >= m.n() {
+                            run.violation("symbol-outside-model", "C10/chain-symbol-outside-support", format!("{desc} :: decode #{i} of a phase returned {g} for a {}-symbol model", m.n()));
+                            return;
+                        }
+                    }
+                    Err(CoderError::Frontend(ChainDecErr::OutOfCompressedData)) => {
+                        run.count("chain_out_of_data", 1);
+                        run.nontrivial();
+                        return;
+                    }
+                    Err(e) => {
+                        run.violation("undocumented-error", "C10/chain-undocumented-error", format!("{desc} :: decode #{i} of a phase returned {e:?}"));
+                        return;
+                    }
+                }
+            }
+        };
+    }
+    let kmax = if run.small { 6 } else { 24 };
+    let (k1, k2, k3) = (rng.usize_in(0, kmax), rng.usize_in(1, kmax), rng.usize_in(1, kmax));
+    let mut cc = cc;
+    phase!(cc, zoo1, k1);
+    let mut cc = match cc.change_precision::<P2>() {
+        Ok(c) => c,
+        Err(_) => {
+            run.count("chain_change_precision_refused", 1);
+            return;
+        }
+    };
+    run.count("chain_precision_changes", 1);
+    phase!(cc, zoo2, k2);
+    let mut cc = match cc.change_precision::<P1>() {
+        Ok(c) => c,
+        Err(_) => {
+            run.count("chain_change_precision_refused", 1);
+            return;
+        }
+    };
+    run.count("chain_precision_changes", 1);
+    phase!(cc, zoo1, k3);
     run.nontrivial();
     run.describe(|| desc.clone());
 }
@@ -506,6 +585,15 @@ pub fn case(run: &mut Run, rng: &mut Rng) {
                 chain_combo::<u32, u64, u32, 24>,
                 chain_combo::<u32, u64, u32, 32>,
                 chain_combo::<u32, u64, u16, 1>,
+                chain_prec::<u32, u64, u32, 24, u32, 32>,
+                chain_prec::<u32, u64, u8, 8, u32, 24>,
+                chain_prec::<u32, u64, u16, 1, u32, 32>,
+                chain_prec::<u16, u32, u8, 8, u16, 16>,
+                chain_prec::<u16, u32, u8, 3, u16, 12>,
+                chain_prec::<u8, u16, u8, 3, u8, 8>,
+                chain_prec::<u8, u16, u8, 1, u8, 8>,
+                chain_prec::<u8, u32, u8, 2, u8, 8>,
+                chain_prec::<u16, u64, u8, 5, u16, 16>,
             ];
             let k = rng.below(combos.len() as u64) as usize;
             combos[k](run, rng)
